@@ -33,9 +33,12 @@ SPEC = {
 FALLBACK_MODULE = {"C04": "MD.Proofs.ScoreReal", "C05": "MD.Proofs.ScoreReal", "C14": "MD.Proofs.ScoreReal"}
 
 
+INTEGRATED = set(re.findall(r"^import\s+(\S+)", (LEAN / "MD.lean").read_text(), flags=re.M))
+
+
 def theorems_of(module):
     f = LEAN / (module.replace(".", "/") + ".lean")
-    if not f.exists():
+    if not f.exists() or module not in INTEGRATED:  # only files that are part of the build (MD.lean)
         return None
     src = f.read_text()
     out = []
